@@ -709,8 +709,10 @@ func TestVerifC19BigBody(t *testing.T) {
 			ctx.Inconclusive("C19 bigbody: no body-reading KV or add route in the source")
 			return
 		}
-		ctx.Group("bigbody", len(routes), func(cs *vkit.Case) {
-			r := routes[cs.Idx]
+		// each route twice: with the length declared, and as a chunked body of unknown length
+		ctx.Group("bigbody", 2*len(routes), func(cs *vkit.Case) {
+			r := routes[cs.Idx%len(routes)]
+			chunked := cs.Idx >= len(routes)
 			e := c19NewEnv(ctx, cs)
 			defer e.abandon()
 			total := src.Limits.MaxBody + 4096
@@ -720,7 +722,11 @@ func TestVerifC19BigBody(t *testing.T) {
 			} else {
 				pre, fill, post = `{"index_name":"i0","id":"big","vector":[`, "0,", `0]}`
 			}
-			it := &c19Item{Kind: "limit-body-over", Field: "body", Method: r.Method, Target: c19Target(r, nil, nil, ""),
+			kind := "limit-body-over"
+			if chunked {
+				kind = "limit-body-over-chunked"
+			}
+			it := &c19Item{Kind: kind, Chunked: chunked, Field: "body", Method: r.Method, Target: c19Target(r, nil, nil, ""),
 				Want4xx: fmt.Sprintf("the body has %d bytes, more than the published limit of %d", total, src.Limits.MaxBody),
 				Stream: func() (io.Reader, int64) {
 					n := total - int64(len(pre)+len(post))
@@ -729,8 +735,8 @@ func TestVerifC19BigBody(t *testing.T) {
 				}}
 			resp := e.do(r, it)
 			c19Account(ctx, r, it, resp)
-			ctx.Distinct(fmt.Sprintf("%s|bigbody|%d", r.Key(), resp.Code))
-			ctx.Distinct(fmt.Sprintf("%s|bigbody-followup", r.Key()))
+			ctx.Distinct(fmt.Sprintf("%s|bigbody|%d|%v", r.Key(), resp.Code, chunked))
+			ctx.Distinct(fmt.Sprintf("%s|bigbody-followup|%v", r.Key(), chunked))
 			// the server keeps working afterwards
 			base := &c19Item{Kind: "baseline", Base: true, Method: r.Method, Target: c19Target(r, nil, nil, ""), Body: []byte(c19Template(r).raw())}
 			resp = e.do(r, base)
